@@ -7,7 +7,7 @@
    result of a thread = (header PoseHeader.read returns, offset at which the body is read);
    [result_alone j] = header of j's own file parsed from offset 0, and the offset after it. *)
 From Coq Require Import ZArith NArith List Bool.
-Require Import ListN Result Bytes Prog Codec PoseRead C18_Threads C18_Local C18_Inv C18_Refuted C18_StreamBody C18_GenTie.
+Require Import ListN Result Bytes Prog Codec PoseRead C18_Threads C18_Local C18_Inv C18_Refuted C18_StreamBody C18_StructMemo C18_StructMemoP C18_GenTie.
 Import ListNotations.
 
 (* every clause of the statement for header and body offset: all thread counts, all schedules, no bound *)
@@ -131,3 +131,26 @@ Print Assumptions refuting_schedule_harmless_with_lock.
 Theorem source_access_programme_tie : modelled_programme.
 Proof. exact access_programme_tie. Qed.
 Print Assumptions source_access_programme_tie.
+
+(* tie (a'): module/class-level state inventory and every access to it on the read path, regenerated on this run *)
+Theorem source_shared_state_tie : modelled_state.
+Proof. exact shared_state_tie. Qed.
+Print Assumptions source_shared_state_tie.
+
+(* the second piece of process-global state, BufferReader.unpack_f's per-format struct memo on ConstStructs
+   (model/C18_StructMemo.v; step = one hasattr / setattr / getattr): any number of threads, any schedule, any
+   canonical initial table - every unpack_f call hands `unpack` the struct it would build alone and never meets
+   AttributeError.  So the header parse that [isolated] treats as a thread-local computation reads nothing
+   schedule-dependent from this memo.  (The two models are composed by this argument, not as one transition system.) *)
+Theorem struct_memo_isolated : forall (S : Type) (mk : N -> S) jobs t0 sched i keys r, Canon S mk t0 ->
+  nth_error jobs i = Some keys ->
+  nth_error (ss_pcs (srun S mk sched (sinit S jobs t0))) i = Some (S_done r) ->
+  r = Some (structs_alone S mk keys).
+Proof. exact struct_memo_isolated_lemma. Qed.
+Print Assumptions struct_memo_isolated.
+
+Example struct_memo_nonvacuous :
+  let st := srun N (fun k => k) [0; 1; 1; 0; 1; 0; 0; 1; 0; 1; 0; 1; 0; 1; 1; 0; 0]%nat (sinit N [[5; 7]; [5; 3; 7]]%N []) in
+  ss_pcs st = [S_done (Some [5; 7]%N); S_done (Some [5; 3; 7]%N)].
+Proof. exact struct_memo_example. Qed.
+Print Assumptions struct_memo_nonvacuous.
